@@ -133,6 +133,9 @@ theorem prefix_erase {b b' : Builder} (hb : b.erase = b'.erase) (pfx : Str) {uri
   · rw [p1, p2]; rfl
   · rw [p1, p2]
     simp only
+    by_cases hr : reservedDecl pfx v = true
+    · simp only [hr, if_true]; rfl
+    simp only [hr, if_false, Bool.false_eq_true]
     rcases eb_erase_cases h5 with ⟨q1, q2⟩ | ⟨e, e', q1, q2, q3⟩
     · rw [q1, q2]
     · rw [q1, q2]
@@ -373,7 +376,9 @@ theorem pi_erase {b b' : Builder} (hb : b.erase = b'.erase) {t t' : StrSpan} (ht
     (b.processingInstruction t c).erase = (b'.processingInstruction t' c').erase := by
   obtain ⟨h1, h2, h3, h4, h5, h6, h7, h8⟩ := (Builder.erase_eq_iff b b').1 hb
   rw [Builder.erase_eq_iff]
-  simp only [Builder.processingInstruction, Builder.addLeaf, ht, h1, h2, hc]
+  have hc' : c.map (fun x => normalizeLineEnds x.text) = c'.map (fun x => normalizeLineEnds x.text) := by
+    cases c <;> cases c' <;> simp_all
+  simp only [Builder.processingInstruction, Builder.addLeaf, ht, h1, h2, hc']
   exact ⟨trivial, trivial, h3, h4, h5, h6, h7, h8⟩
 
 /-! ### One token, the token loop -/
@@ -409,7 +414,10 @@ theorem step_erase1 {b b' : Builder} (hb : b.erase = b'.erase) (t : Token) :
     simp only [Token.erase, Builder.step, Step.er_ok, Option.some.injEq]
     exact comment_erase hb (by rfl)
   | pi target content sp =>
-    simp only [Token.erase, Builder.step, Step.er_ok, Option.some.injEq]
+    simp only [Token.erase, Builder.step, StrSpan.erase]
+    split
+    · rfl
+    simp only [Step.er_ok, Option.some.injEq]
     refine pi_erase hb (by rfl) ?_
     cases content <;> rfl
   | declaration version enc sa sp =>
